@@ -195,6 +195,13 @@ def _logged(it, c, bound, thunk):
     r = thunk()
     e['result'] = r
     e['done'] = True
+    if 'self' in bound and getattr(it, 'obl_suffix', None) is not None:
+        # the receiver as the call left it (call_self_after): lets a clause of the caller say
+        # what the caller itself did NOT change after the call returned
+        try:
+            e['self_after'] = V.clone_value(bound['self'], {})
+        except Exception:
+            e['self_after'] = None
     return r
 
 
@@ -777,13 +784,17 @@ def intrinsic(it, name, args, kwargs):
     if name == 'last_call_raised':
         es = _log_entries(it, args[0], args[1])
         return len(es) > 0 and not es[-1]['done']
-    if name in ('call_result', 'call_arg'):
+    if name in ('call_result', 'call_arg', 'call_self_after'):
         es = _log_entries(it, args[0], args[1])
         k = args[2]
         if not isinstance(k, int) or not (0 <= k < len(es)):
             raise EngineError(f'{name}: there is no call number {k}')
         if name == 'call_arg':
             return es[k]['args'][args[3]]
+        if name == 'call_self_after':
+            if not es[k]['done'] or es[k].get('self_after') is None:
+                raise EngineError('call_self_after: that call did not return')
+            return es[k]['self_after']
         if not es[k]['done']:
             raise EngineError('call_result: that call did not return')
         return es[k]['result']
